@@ -85,9 +85,10 @@ def _gen_callers(tier, rng, scale):
     """a caller of create_file_cleanly end to end: the .symindex wholesym derives from a local .sym file, with the first attempt's writes failing
     (RLIMIT_FSIZE) at the first write, in the middle, in the last bytes, or not at all"""
     out = []
-    for _ in range((6 if tier == "quick" else 60) * scale):
-        n = rng.choice([300, 2000, 3000, 20000, 120000])
-        lim = rng.choice([0, 0, 1, 512, 4096, 65536, 10 ** 9]) if n < 120000 else rng.choice([0, 65536, 2 * 1024 * 1024 + 7, 10 ** 9])
+    for k in range((6 if tier == "quick" else 60) * scale):
+        # (every sixth case has an index above 2 MiB - more than one write call's worth for tokio's file writes)
+        n = rng.choice([300, 2000, 3000, 20000, 120000]) if k % 6 else rng.choice([120000, 160000])
+        lim = rng.choice([0, 0, 1, 512, 4096, 65536, 10 ** 9]) if n < 120000 else rng.choice([0, 65536, 2 * 1024 * 1024 + 7, 10 ** 9, 10 ** 9])
         out.append({"kind": "caller", "items": [[n, lim]], "creators": []})
     return out
 
